@@ -2,6 +2,7 @@ package main
 
 import (
 	"fmt"
+	"sort"
 	"go/constant"
 	"go/types"
 	"math/big"
@@ -792,7 +793,22 @@ type modAddr struct {
 }
 
 // modAddrs expands one `modifies` item: an lvalue, or elems(s).
-func (en *env) modAddrs(m Expr) []modAddr {
+func (en *env) modAddrs(m Expr) (res []modAddr) {
+	defer func() {
+		if r := recover(); r != nil {
+			if u, ok := r.(unsupported); ok && strings.Contains(string(u), "unknown type") {
+				// names a type of a package this run did not load: no value of that dynamic
+				// type exists in the program, the item is vacuous
+				res = nil
+				return
+			}
+			panic(r)
+		}
+	}()
+	return en.modAddrs1(m)
+}
+
+func (en *env) modAddrs1(m Expr) []modAddr {
 	if c, ok := m.(*ECall); ok && c.Fun == "flag" {
 		x := en.eval(c.Args[0])
 		ref := x.term
@@ -821,9 +837,11 @@ func (en *env) modAddrs(m Expr) []modAddr {
 		return []modAddr{{region: s.term, sort: en.e.sortOf(sl.Elem()), typ: sl.Elem()}}
 	}
 	if c, ok := m.(*ECall); ok && (c.Fun == "gmap" || c.Fun == "content") {
-		v := en.eval(m)
+		var v tval
 		if c.Fun == "content" {
 			v = en.eval(c.Args[0])
+		} else {
+			v = en.eval(m)
 		}
 		if _, isMap := v.typ.Underlying().(*types.Map); !isMap {
 			en.fail("modifies %s(): not a map", c.Fun)
@@ -1237,8 +1255,18 @@ func (V *Verifier) declareSpecFunc(en *env, sf *SpecFunc) {
 // ---------------------------------------------------------------------------
 
 func (e *fnEnc) resolveLoopPhi(name string, li *loopInfo) (tval, bool) {
+	// the loop itself first, then the enclosing loops from the innermost outwards
+	cands := []*loopInfo{li}
+	var outer []*loopInfo
 	for _, l := range e.loopList {
-		if l == li || l.blocks[li.head] {
+		if l != li && l.blocks[li.head] {
+			outer = append(outer, l)
+		}
+	}
+	sort.Slice(outer, func(i, j int) bool { return len(outer[i].blocks) < len(outer[j].blocks) })
+	cands = append(cands, outer...)
+	for _, l := range cands {
+		if true {
 			for _, ins := range l.head.Instrs {
 				phi, ok := ins.(*ssa.Phi)
 				if !ok {
@@ -1258,8 +1286,11 @@ func (e *fnEnc) resolveLoopPhi(name string, li *loopInfo) (tval, bool) {
 func (e *fnEnc) resolveSourceVar(name string, li *loopInfo, st *state) (tval, bool) {
 	// 1. header phis of the loop (and enclosing loops) whose comment is the name
 	if li != nil {
+		if v, ok := e.resolveLoopPhi(name, li); ok {
+			return v, true
+		}
 		for _, l := range e.loopList {
-			if l == li || l.blocks[li.head] {
+			if l == li {
 				for _, ins := range l.head.Instrs {
 					phi, ok := ins.(*ssa.Phi)
 					if !ok {
